@@ -53,7 +53,7 @@ fn perms(n: usize) -> Vec<Vec<usize>> {
 
 /// build the per-ECU message list (stream order) + ground truth; returns None when the premise
 /// ("all messages of a boot precede in reception time every message of the next boot") does not hold
-fn ecu_trace(ecu: u8, boots: &[Boot], t0: u64) -> Option<(Vec<(u64, u32, usize)>, Vec<Truth>, bool)> {
+fn ecu_trace(ecu: u8, boots: &[Boot], t0: u64, strict: bool) -> Option<(Vec<(u64, u32, usize)>, Vec<Truth>, bool)> {
     // (reception, ts_dms, boot index)
     let mut msgs = vec![];
     let mut truth = vec![];
@@ -82,7 +82,7 @@ fn ecu_trace(ecu: u8, boots: &[Boot], t0: u64) -> Option<(Vec<(u64, u32, usize)>
             max_recv = max_recv.max(recv);
             msgs.push((recv, (ts / 100) as u32, bi));
         }
-        if bi > 0 && min_recv <= prev_max_recv {
+        if strict && bi > 0 && min_recv <= prev_max_recv {
             return None; // not cleanly separated in reception time
         }
         if bi > 0 && start <= prev_end {
@@ -99,10 +99,12 @@ struct Case {
     ecus: Vec<Vec<Boot>>,
     /// interleaving: for each output position the ECU index
     inter: Vec<usize>,
+    /// message index = position x stride (the detector schedules its regular table refresh by index distance)
+    stride: u32,
 }
 
 fn case_json(c: &Case) -> Value {
-    json!({"family": "boots", "ecus": c.ecus.iter().map(|bs| bs.iter().map(|b| json!({"ts_us": PROFILES[b.profile], "delay_us": DELAYS[b.delay], "off_us": OFFS[b.off], "perm": b.perm, "p": [b.profile, b.delay, b.off, b.perm]})).collect::<Vec<_>>()).collect::<Vec<_>>(), "interleaving": c.inter})
+    json!({"family": "boots", "ecus": c.ecus.iter().map(|bs| bs.iter().map(|b| json!({"ts_us": PROFILES[b.profile], "delay_us": DELAYS[b.delay], "off_us": OFFS[b.off], "perm": b.perm, "p": [b.profile, b.delay, b.off, b.perm]})).collect::<Vec<_>>()).collect::<Vec<_>>(), "interleaving": c.inter, "index_stride": c.stride})
 }
 
 fn run_case(ctx: &mut Ctx, c: &Case) {
@@ -111,7 +113,7 @@ fn run_case(ctx: &mut Ctx, c: &Case) {
     let mut per: Vec<(Vec<(u64, u32, usize)>, Vec<Truth>)> = vec![];
     let mut delay_drop = false;
     for (e, boots) in c.ecus.iter().enumerate() {
-        match ecu_trace(e as u8, boots, BASE + e as u64 * 7 * S) {
+        match ecu_trace(e as u8, boots, BASE + e as u64 * 7 * S, true) {
             None => {
                 ctx.landmark("premise_not_met(reception overlap)");
                 return;
@@ -130,7 +132,7 @@ fn run_case(ctx: &mut Ctx, c: &Case) {
         let (recv, ts, bi) = per[e].0[cursors[e]];
         cursors[e] += 1;
         let name = [b'E', b'C', b'U', b'A' + e as u8];
-        msgs.push(mk_msg(msgs.len() as u32, &name, recv, ts, true, Some((MTIN_LOG_INFO_V, 0, *b"APID", *b"CTID")), vec![msgs.len() as u8]));
+        msgs.push(mk_msg(msgs.len() as u32 * c.stride, &name, recv, ts, true, Some((MTIN_LOG_INFO_V, 0, *b"APID", *b"CTID")), vec![msgs.len() as u8]));
         owner.push((e, bi));
     }
     let res = run_stage(&[&msgs]);
@@ -167,7 +169,7 @@ fn run_case(ctx: &mut Ctx, c: &Case) {
     let mut map: BTreeMap<(usize, usize), u32> = BTreeMap::new();
     let mut rev: BTreeMap<u32, (usize, usize)> = BTreeMap::new();
     for (m, _) in &res.delivered {
-        let o = owner[m.index as usize];
+        let o = owner[(m.index / c.stride) as usize];
         if let Some(prev) = map.insert(o, m.lifecycle) {
             if prev != m.lifecycle {
                 ctx.violation("boot_split", disc, cj, format!("messages of ECU {} boot {} are in different lifecycles", o.0, o.1));
@@ -213,6 +215,55 @@ fn run_case(ctx: &mut Ctx, c: &Case) {
         if l.nr_msgs != t.nr {
             ctx.violation("nr_msgs", disc, cj, format!("ECU {e} boot {bi}: nr_msgs {} != {}", l.nr_msgs, t.nr));
             return;
+        }
+    }
+}
+
+/// the boot-history streams as plain message lists (premise not required): used by the C03 explorer as
+/// valid multi-lifecycle inputs. f(messages as (ecu name, reception us, timestamp dms), case description)
+pub fn history_streams(thorough: bool, f: &mut dyn FnMut(&[([u8; 4], u64, u32)], &dyn Fn() -> Value) -> bool) {
+    let emit = |c: &Case, f: &mut dyn FnMut(&[([u8; 4], u64, u32)], &dyn Fn() -> Value) -> bool| -> bool {
+        let per: Vec<Vec<(u64, u32, usize)>> = c.ecus.iter().enumerate().map(|(e, boots)| ecu_trace(e as u8, boots, BASE + e as u64 * 7 * S, false).unwrap().0).collect();
+        let mut cursors = vec![0usize; per.len()];
+        let mut out = vec![];
+        for &e in &c.inter {
+            let (recv, ts, _) = per[e][cursors[e]];
+            cursors[e] += 1;
+            out.push(([b'E', b'C', b'U', b'A' + e as u8], recv, ts));
+        }
+        f(&out, &|| case_json(c))
+    };
+    let all_p: Vec<usize> = (0..PROFILES.len()).collect();
+    for nb in 1..=2usize {
+        for bs in ecu_variants(nb, &all_p, &[0, 1, 2], &[0, 1, 2, 3], true) {
+            let n: usize = bs.iter().map(|b| PROFILES[b.profile].len()).sum();
+            if !emit(&Case { ecus: vec![bs], inter: vec![0; n], stride: 1 }, f) {
+                return;
+            }
+        }
+    }
+    let profs2: Vec<usize> = if thorough { vec![0, 2, 3, 5, 7] } else { vec![0, 2, 5] };
+    let dl2: Vec<usize> = if thorough { vec![0, 1, 2] } else { vec![0, 2] };
+    let of2: Vec<usize> = if thorough { vec![0, 1, 3] } else { vec![0, 3] };
+    for (na, nb) in [(1usize, 1usize), (2, 1), (2, 2)] {
+        let va = ecu_variants(na, &profs2, &dl2, &of2, true);
+        let vb = ecu_variants(nb, &profs2, &dl2, &of2, false);
+        for a in &va {
+            let la: usize = a.iter().map(|b| PROFILES[b.profile].len()).sum();
+            for b in &vb {
+                let lb: usize = b.iter().map(|x| PROFILES[x.profile].len()).sum();
+                if la + lb > 7 {
+                    continue;
+                }
+                let mut go = true;
+                enumr::interleavings(&[la, lb], &mut |il| {
+                    go = emit(&Case { ecus: vec![a.clone(), b.clone()], inter: il.to_vec(), stride: 1 }, f);
+                    go
+                });
+                if !go {
+                    return;
+                }
+            }
         }
     }
 }
@@ -271,7 +322,7 @@ impl Prop for C08 {
             for bs in vars {
                 if ctx.mine() {
                     let n: usize = bs.iter().map(|b| PROFILES[b.profile].len()).sum();
-                    run_case(ctx, &Case { ecus: vec![bs], inter: vec![0; n] });
+                    run_case(ctx, &Case { ecus: vec![bs], inter: vec![0; n], stride: 1 });
                     if ctx.sum.evaluations % 4096 == 0 && ctx.out_of_time() {
                         done = false;
                         break;
@@ -283,11 +334,42 @@ impl Prop for C08 {
                 return;
             }
         }
+        // (a2) index gaps: indices 100 001 apart, so that a regular refresh of the published table follows every
+        // directly forwarded message
+        {
+            let vars1 = ecu_variants(2, &all_p, &all_d, &all_o, true);
+            ctx.begin_family("index_gaps", &format!("one ECU, boots=2, all profiles/delays/offs/perms ({} traces) + two ECUs boots=(2,1) reduced x all interleavings; index stride 100001", vars1.len()));
+            for bs in vars1 {
+                if ctx.mine() {
+                    let n: usize = bs.iter().map(|b| PROFILES[b.profile].len()).sum();
+                    run_case(ctx, &Case { ecus: vec![bs], inter: vec![0; n], stride: 100_001 });
+                }
+            }
+            let va = ecu_variants(2, &[0, 2, 5], &[0, 2], &[0, 3], true);
+            let vb = ecu_variants(1, &[0, 2, 5], &[0, 2], &[0, 3], false);
+            for a in &va {
+                let la: usize = a.iter().map(|b| PROFILES[b.profile].len()).sum();
+                for b in &vb {
+                    let lb: usize = b.iter().map(|x| PROFILES[x.profile].len()).sum();
+                    if la + lb > 7 {
+                        continue;
+                    }
+                    enumr::interleavings(&[la, lb], &mut |il| {
+                        if ctx.mine() {
+                            run_case(ctx, &Case { ecus: vec![a.clone(), b.clone()], inter: il.to_vec(), stride: 100_001 });
+                        }
+                        true
+                    });
+                }
+            }
+            ctx.end_family(true);
+        }
         // (b) two ECUs, 1..2 boots each, reduced profiles, every interleaving
-        let profs2: Vec<usize> = if thorough { vec![0, 2, 3, 5, 7] } else { vec![0, 2, 5] };
+        let profs2: Vec<usize> = if thorough { vec![0, 1, 2, 3, 4, 5, 7] } else { vec![0, 2, 5] };
         let dl2: Vec<usize> = if thorough { vec![0, 1, 2] } else { vec![0, 2] };
-        let of2: Vec<usize> = if thorough { vec![0, 1, 3] } else { vec![0, 3] };
-        for (na, nb) in [(1usize, 1usize), (2, 1), (2, 2)] {
+        let of2: Vec<usize> = if thorough { vec![0, 1, 2, 3] } else { vec![0, 3] };
+        let shapes: &[(usize, usize)] = if thorough { &[(1, 1), (2, 1), (1, 2), (2, 2), (3, 1)] } else { &[(1, 1), (2, 1), (2, 2)] };
+        for &(na, nb) in shapes {
             let va = ecu_variants(na, &profs2, &dl2, &of2, true);
             let vb = ecu_variants(nb, &profs2, &dl2, &of2, false);
             ctx.begin_family("two_ecus", &format!("boots=({na},{nb}) profiles={} delays={} offs={} x all interleavings", profs2.len(), dl2.len(), of2.len()));
@@ -296,12 +378,12 @@ impl Prop for C08 {
                 let la: usize = a.iter().map(|b| PROFILES[b.profile].len()).sum();
                 for b in &vb {
                     let lb: usize = b.iter().map(|x| PROFILES[x.profile].len()).sum();
-                    if la + lb > 7 {
+                    if la + lb > if thorough { 8 } else { 7 } {
                         continue;
                     }
                     let cont = enumr::interleavings(&[la, lb], &mut |il| {
                         if ctx.mine() {
-                            run_case(ctx, &Case { ecus: vec![a.clone(), b.clone()], inter: il.to_vec() });
+                            run_case(ctx, &Case { ecus: vec![a.clone(), b.clone()], inter: il.to_vec(), stride: 1 });
                         }
                         true
                     });
@@ -329,7 +411,7 @@ impl Prop for C08 {
                     let l: Vec<usize> = [a, b, c3].iter().map(|v| PROFILES[v[0].profile].len()).collect();
                     let cont = enumr::interleavings(&l, &mut |il| {
                         if ctx.mine() {
-                            run_case(ctx, &Case { ecus: vec![a.clone(), b.clone(), c3.clone()], inter: il.to_vec() });
+                            run_case(ctx, &Case { ecus: vec![a.clone(), b.clone(), c3.clone()], inter: il.to_vec(), stride: 1 });
                         }
                         true
                     });
@@ -360,6 +442,7 @@ impl Prop for C08 {
             })
             .collect();
         let inter: Vec<usize> = case["interleaving"].as_array().unwrap().iter().map(|x| x.as_u64().unwrap() as usize).collect();
-        run_case(ctx, &Case { ecus, inter });
+        let stride = case["index_stride"].as_u64().unwrap_or(1) as u32;
+        run_case(ctx, &Case { ecus, inter, stride });
     }
 }
